@@ -157,4 +157,57 @@ def run(ctx):
         okps = okps and len(ps) == 1 and (not pw or pw[0] < ps[0])
     ctx.check(okps and n >= 2, 'R2', 'HostEnergy::update saves the pstate after having charged the elapsed interval', where(upd), '', key='R2|HostEnergy::update|pstate saved last')
     ctx.assume('the power formula (get_current_watts_value / get_power) and that powers are non-negative are not decided; the clock is monotone (C03)')
+    # ---- R3 the elapsed interval is priced with the state saved when it began ------------------------------------------------------------------
+    ctx.rule('R3', 'update() prices the elapsed interval with the pstate saved at the previous update (pstate_), never with the pstate the host is in now; the pstate is re-saved only after the energy is added', 3)
+    HEQ = [f['q'].rsplit('::', 1)[0] for f in P.fns.values() if f['q'].endswith('HostEnergy::update') and f.get('blocks')]
+    if len(HEQ) != 1:
+        ctx.unrecognised('R3', 'HostEnergy::update: %d definitions' % len(HEQ))
+        return EXPLANATION
+    HEQ = HEQ[0]
+    PST = lib.this_field(HEQ + '::pstate_')
+    NOW_DEPENDENT = ('get_speed', 'get_pstate', 'get_available_speed', 'get_pstate_count')     # what the host is *now*
+    for f in sorted([f for f in P.fns.values() if f['q'] == HEQ + '::get_current_watts_value' and f.get('blocks')], key=lambda f_: len(f_['params'])):
+        v = A.view(f)
+        bad = []
+        saved = 0
+        for eid in range(len(f['elems'])):
+            for e in v.events_of(eid):
+                if e.eid != eid or e.kind != 'call':
+                    continue
+                m = e.q.rsplit('::', 1)[-1]
+                if e.obj is not None and 'host_' in repr(e.obj) and m in NOW_DEPENDENT and f['elems'][eid].get('m') not in ('XBT_DEBUG', 'XBT_VERB'):
+                    bad.append('%s() at line %s' % (m, e.line))
+                if m in ('get_pstate_speed', 'at', 'operator[]') and e.args:
+                    a0 = e.args[0]
+                    while a0[0] in ('cast', 'conv'):
+                        a0 = a0[2]
+                    if a0[0] == 'var' and a0[1] == 'local':       # a local copy of the saved pstate
+                        dd = [x.rhs for eid2 in range(len(f['elems'])) for x in v.events_of(eid2) if x.kind == 'assign' and x.lhs == a0]
+                        if len(dd) == 1:
+                            a0 = dd[0]
+                            while a0[0] in ('cast', 'conv'):
+                                a0 = a0[2]
+                    if m == 'get_pstate_speed' or 'power_range' in repr(e.obj):
+                        if a0 == PST:
+                            saved += 1
+                        else:
+                            bad.append('%s(%s) at line %s is not indexed by the saved pstate_' % (m, ex.pretty(a0), e.line))
+        ctx.check(not bad and saved >= 1, 'R3', 'get_current_watts_value(%s) reads the speed / power range of the saved pstate_ only' % ('cpu_load' if f['params'] else ''), where(f),
+                  ('; '.join(bad) + ': the interval that has just elapsed is priced with the pstate the host is in now') if bad else '%d lookup(s) by pstate_' % saved,
+                  key='R3|get_current_watts_value/%d|saved pstate' % len(f['params']))
+    upf = P.fn(HEQ + '::update')
+    from ..cfg import abstract_run as _arun
+
+    def tr3(st, e):
+        resaved, bad = st
+        if e.kind == 'assign' and e.lhs == PST:
+            return (e.line, bad)
+        if e.kind == 'call' and e.q == HEQ + '::get_current_watts_value' and resaved:
+            return (resaved, bad or 'the watts of the elapsed interval are computed at line %s after pstate_ was overwritten with the current pstate (line %s)' % (e.line, resaved))
+        return None
+    ex3 = _arun(A, upf, (None, None), tr3)
+    st3 = ex3['normal']
+    bad3 = sorted(set(x[1] for x in st3 if x[1]))
+    ctx.check(bool(st3) and all(x[0] for x in st3) and not bad3, 'R3', 'update(): the energy of the elapsed interval is added before pstate_ is re-saved, and pstate_ is re-saved on every path', where(upf),
+              bad3[0] if bad3 else ('' if all(x[0] for x in st3) else 'a path leaves update() without saving the pstate of the next interval'), key='R3|update|price then re-save')
     return EXPLANATION
